@@ -78,6 +78,8 @@ package wallet
 //@   method NewAddress
 //@     requires recv != nil
 //@     ensures result != nil
+//@   method DecodeSig
+//@     requires recv != nil
 //@ end
 
 //@ func (*AddressDecMap).Decode
@@ -96,3 +98,23 @@ package wallet
 //@     modifies a.Addr[*]
 //@     invariant len(a.Addr) == mapLen && fresh(arr(a.Addr)) && off(a.Addr) == 0
 //@     invariant forall k int :: 0 <= k && k < $i ==> a.Addr[k] != nil && addrMapNonNil(a.Addr[k])
+
+// The registries are filled at start-up (SetBackend refuses nil-overwrites only; a nil backend is a configuration error).
+//@ global forall b BackendID :: has(backend, b) ==> backend[b] != nil
+
+//@ func DecodeSig
+//@   requires r != nil
+//@   loop 1
+//@     modifies
+//@     invariant true
+
+//@ func DecodeSparseSigs
+//@   requires r != nil && sigs != nil
+//@   modifies (*sigs)[*]
+//@   ensures len(*sigs) == old(len(*sigs))
+//@   loop 1
+//@     modifies (*sigs)[*]
+//@     invariant 0 <= maskIdx && 0 <= sigIdx
+//@   loop 2
+//@     modifies (*sigs)[*]
+//@     invariant 0 <= maskIdx && maskIdx < len(mask) && 0 <= sigIdx && 0 <= bitIdx
